@@ -110,6 +110,7 @@ def bounded_subfields(reg, tier, seed):
         elif name.endswith("ObjectData.State"):
             ctxs = [{"PCode": p} for p in (9, 47, 95, 111, 255, 143)]
         accepted_total = 0
+        seq_left = {}
         nudges_left = [60 if tier == "quick" else 1200]
         for cv in ctxs:
             bb = _ctx_block(msg, block, **cv)
@@ -164,6 +165,45 @@ def bounded_subfields(reg, tier, seed):
                     if d is se.UNSERIALIZABLE:
                         continue
                     accepted_total += 1
+                    if pod and isinstance(p, (bytes, bytearray)) and seq_left.get(name, 4) > 0 and _finite(d):
+                        # the two forms through one block object, in both orders: decoding the object form first must not change what
+                        # the beautified text shows (the plain-data form, a literal that parses back), and rendering first must not
+                        # change what deserialize_var hands out (the object form)
+                        try:
+                            ser.deserialize(bb, p, pod=False)
+                            both_forms = True
+                        except Exception:  # noqa
+                            both_forms = False         # the object form does not accept this payload: nothing to compare
+                    else:
+                        both_forms = False
+                    if both_forms:
+                        seq_left[name] = seq_left.get(name, 4) - 1
+                        evals += 1
+                        try:
+                            from hippolyzer.lib.base.message.message import Message as _SM
+                            from hippolyzer.lib.base.message.message_formatting import HumanMessageSerializer as _HS
+                            want_pod = ser.serialize(bb, d)
+                            for order in ("object-first", "text-first"):
+                                b2 = _ctx_block(msg, block, **cv)
+                                b2.vars[var] = p
+                                m_ = _SM(msg, b2)
+                                fresh_obj = repr(getattr(ser.deserialize(bb, p, pod=False), "__wrapped__", ser.deserialize(bb, p, pod=False)))
+                                if order == "object-first":
+                                    b2.deserialize_var(var, make_copy=False)
+                                text = _HS.to_human_string(m_, beautify=True)
+                                if order == "text-first":
+                                    o_ = b2.deserialize_var(var, make_copy=False)
+                                    if repr(getattr(o_, "__wrapped__", o_)) != fresh_obj:
+                                        fail(f"subfield/forms/{name}", f"{name}: after the message was rendered, deserialize_var hands out {repr(o_)[:80]} "
+                                             f"instead of the object form {fresh_obj[:80]}", {"field": name, "payload": _h(p), "order": order})
+                                back = _HS.from_human_string(text)
+                                got = back[block][0].vars[var] if block in back.blocks else None
+                                if isinstance(want_pod, (bytes, bytearray)) and bytes(got) != bytes(want_pod):
+                                    fail(f"subfield/forms/{name}", f"{name}: the beautified text ({order}) parses back to {_h(got)[:80]}, the plain-data form encodes "
+                                         f"to {_h(want_pod)[:80]}", {"field": name, "payload": _h(p), "order": order})
+                        except Exception as ex:  # noqa
+                            fail(f"subfield/forms/{name}", f"{name}: object form and beautified text through one block: {type(ex).__name__}: {str(ex)[:200]}",
+                                 {"field": name, "payload": _h(p)})
                     try:
                         p2 = ser.serialize(bb, d)
                         d2 = ser.deserialize(bb, p2, pod=pod)
